@@ -160,6 +160,85 @@ example : wind (1, 1) [(0, 0), (2, 0), (2, 2), (0, 2)] = 1 ∧
     wind (1, 0) [(0, 0), (2, 0), (2, 2), (0, 2)] = 0 ∧
     wind (3, 1) [(0, 0), (2, 0), (2, 2), (0, 2)] = 0 := by decide
 
+/-! ## exact interior: axis-parallel rectangles -/
+
+/-- **an instance of `C44_full`**: for every axis-parallel rectangle (counter-clockwise from its
+lower left corner; other starting corners, the clockwise order and other positions follow from the
+rotation / reversal / translation theorems above) the strictly-inside test is the open rectangle,
+the boundary test is its border, and the winding number inside is 1 -/
+theorem C44_rectangle_interior_partial (p : Pt) (x0 y0 x1 y1 : Int) (hx : x0 < x1) (hy : y0 < y1) :
+    (insideOnly p [(x0, y0), (x1, y0), (x1, y1), (x0, y1)] = true ↔
+        (x0 < p.1 ∧ p.1 < x1 ∧ y0 < p.2 ∧ p.2 < y1)) ∧
+    (sideOnly p [(x0, y0), (x1, y0), (x1, y1), (x0, y1)] = true ↔
+        (((p.2 = y0 ∨ p.2 = y1) ∧ x0 ≤ p.1 ∧ p.1 ≤ x1) ∨ ((p.1 = x0 ∨ p.1 = x1) ∧ y0 ≤ p.2 ∧ p.2 ≤ y1))) ∧
+    (insideOnly p [(x0, y0), (x1, y0), (x1, y1), (x0, y1)] = true →
+        wind p [(x0, y0), (x1, y0), (x1, y1), (x0, y1)] = 1) := by
+  have hE : edges [(x0, y0), (x1, y0), (x1, y1), (x0, y1)] =
+      [((x0, y0), (x1, y0)), ((x1, y0), (x1, y1)), ((x1, y1), (x0, y1)), ((x0, y1), (x0, y0))] := rfl
+  have hB : onBoundary p [(x0, y0), (x1, y0), (x1, y1), (x0, y1)] = true ↔
+      (((p.2 = y0 ∨ p.2 = y1) ∧ x0 ≤ p.1 ∧ p.1 ≤ x1) ∨ ((p.1 = x0 ∨ p.1 = x1) ∧ y0 ≤ p.2 ∧ p.2 ≤ y1)) := by
+    simp only [onBoundary, hE, onEdge, List.any_cons, List.any_nil, Bool.or_false,
+      tween2_horizontal p x0 x1 y0 hx, tween2_vertical p x1 y0 y1 hy,
+      tween2_symm p (x1, y1) (x0, y1), tween2_horizontal p x0 x1 y1 hx,
+      tween2_symm p (x0, y1) (x0, y0), tween2_vertical p x0 y0 y1 hy,
+      Bool.or_eq_true, decide_eq_true_eq, List.mem_cons, List.not_mem_nil, or_false]
+    obtain ⟨p1, p2⟩ := p
+    simp only [Prod.mk.injEq]
+    omega
+  have hC : crossSum p [((x0, y0), (x1, y0)), ((x1, y0), (x1, y1)), ((x1, y1), (x0, y1)), ((x0, y1), (x0, y0))] =
+      (if y0 ≤ p.2 ∧ p.2 < y1 ∧ p.1 < x1 then 1 else 0) + (if y0 ≤ p.2 ∧ p.2 < y1 ∧ p.1 < x0 then -1 else 0) := by
+    simp only [crossSum, List.map_cons, List.map_nil, List.sum_cons, List.sum_nil,
+      cross_horizontal, cross_vertical_up p x1 y0 y1 hy, cross_vertical_down p x0 y0 y1 hy]
+    omega
+  have hS : crossSum p [((x0, y0), (x1, y0)), ((x1, y0), (x1, y1)), ((x1, y1), (x0, y1)), ((x0, y1), (x0, y0))] =
+      if y0 ≤ p.2 ∧ p.2 < y1 ∧ x0 ≤ p.1 ∧ p.1 < x1 then 1 else 0 := by
+    rw [hC]
+    by_cases c1 : y0 ≤ p.2 ∧ p.2 < y1 ∧ p.1 < x1 <;> by_cases c2 : y0 ≤ p.2 ∧ p.2 < y1 ∧ p.1 < x0 <;>
+      by_cases c3 : y0 ≤ p.2 ∧ p.2 < y1 ∧ x0 ≤ p.1 ∧ p.1 < x1
+    all_goals first
+      | (rw [if_pos c1, if_pos c2, if_pos c3]; omega)
+      | (rw [if_pos c1, if_pos c2, if_neg c3]; omega)
+      | (rw [if_pos c1, if_neg c2, if_pos c3]; omega)
+      | (rw [if_pos c1, if_neg c2, if_neg c3]; omega)
+      | (rw [if_neg c1, if_pos c2, if_pos c3]; omega)
+      | (rw [if_neg c1, if_pos c2, if_neg c3]; omega)
+      | (rw [if_neg c1, if_neg c2, if_pos c3]; omega)
+      | (rw [if_neg c1, if_neg c2, if_neg c3]; omega)
+      | omega
+  have key : ∀ (b : Bool), onBoundary p [(x0, y0), (x1, y0), (x1, y1), (x0, y1)] = b →
+      ((if b then false else (crossSum p [((x0, y0), (x1, y0)), ((x1, y0), (x1, y1)), ((x1, y1), (x0, y1)), ((x0, y1), (x0, y0))] != 0)) = true ↔
+        (x0 < p.1 ∧ p.1 < x1 ∧ y0 < p.2 ∧ p.2 < y1)) := by
+    intro b hb
+    cases b with
+    | true =>
+      have := hB.mp hb
+      simp only [if_true, Bool.false_eq_true, false_iff]
+      omega
+    | false =>
+      have hb' : ¬ (((p.2 = y0 ∨ p.2 = y1) ∧ x0 ≤ p.1 ∧ p.1 ≤ x1) ∨ ((p.1 = x0 ∨ p.1 = x1) ∧ y0 ≤ p.2 ∧ p.2 ≤ y1)) := by
+        intro h; rw [hB.mpr h] at hb; cases hb
+      simp only [Bool.false_eq_true, if_false, hS]
+      by_cases cS : y0 ≤ p.2 ∧ p.2 < y1 ∧ x0 ≤ p.1 ∧ p.1 < x1
+      · rw [if_pos cS]; exact ⟨fun _ => by omega, fun _ => by decide⟩
+      · rw [if_neg cS]; exact ⟨fun h => absurd h (by decide), fun h => absurd (by omega) cS⟩
+  refine ⟨?_, ?_, ?_⟩
+  · simp only [insideOnly, inside_eq, hE]
+    exact key _ rfl
+  · rw [sideOnly_eq]; exact hB
+  · intro hin
+    simp only [insideOnly, inside_eq, hE] at hin
+    have hstrict := (key _ rfl).mp hin
+    have hb : onBoundary p [(x0, y0), (x1, y0), (x1, y1), (x0, y1)] = false := by
+      cases hbb : onBoundary p [(x0, y0), (x1, y0), (x1, y1), (x0, y1)] with
+      | false => rfl
+      | true => have := hB.mp hbb; omega
+    have hc : y0 ≤ p.2 ∧ p.2 < y1 ∧ x0 ≤ p.1 ∧ p.1 < x1 := by omega
+    simp only [wind_eq, hb, hE, hS, Bool.false_eq_true, if_false]
+    rw [if_pos hc]
+
+/-- non-vacuity -/
+example : insideOnly (1, 1) [(0, 0), (3, 0), (3, 2), (0, 2)] = true ∧ sideOnly (3, 1) [(0, 0), (3, 0), (3, 2), (0, 2)] = true := by decide
+
 /-! ## what is not proved -/
 
 /-- the geometric statement for all simple polygons: a point off the boundary is strictly inside
